@@ -46,6 +46,7 @@ func init() {
 			c.Clause("C03-D1/D4")
 			ruleSingleDispatcher(c, d)
 			c.Clause("C03-D2/D3")
+			ruleNullIsAbsent(c, d)
 			ruleBarrier(c, d)
 			ruleNumToDo(c, d)
 		},
@@ -64,6 +65,7 @@ func init() {
 			}
 			c.Clause("C06")
 			ruleSemaphore(c, d)
+			ruleBuiltinThroughInvoke(c)
 		},
 	})
 	register(&Def{
@@ -82,6 +84,7 @@ func init() {
 			ruleLockField(c, "server", c.M.SUsed)
 			c.Clause("C07-D1..D4")
 			ruleUsedTable(c, d)
+			ruleNullIsAbsent(c, d)
 		},
 	})
 }
